@@ -358,7 +358,10 @@ def applyOp (toks : List String) (w : World ByteArray) : Except Err (World ByteA
      | some (d, _) => (.ok { w with store := w.store.put d (.blob (parseContent c)) }, #[s!"x {d}"])
      | none => (.error .other, #[]))
   | ["rmobj", n] =>
-    let objs := sortedObjs w
+    -- `m<k>`: the k-th manifest object; `<k>`: the k-th object of any kind
+    let onlyMan := n.startsWith "m"
+    let n := if onlyMan then (n.drop 1).toString else n
+    let objs := (sortedObjs w).filter fun (_, o) => !onlyMan || !isBlob o
     (match objs[n.toNat! % (max objs.length 1)]? with
      | some (d, _) => (.ok { w with store := w.store.filter (·.1 != d) }, #[s!"x {d}"])
      | none => (.error .other, #[]))
